@@ -42,7 +42,7 @@ type WorkerOut struct {
 	Runs          int            `json:"runs"`
 	NonTrivial    int            `json:"nontrivial"`
 	Steps         int64          `json:"steps"`
-	SimNs         int64          `json:"sim_ns"`
+	SimS          float64        `json:"sim_s"`
 	Probes        map[string]int `json:"probes"`
 	Faults        map[string]int `json:"faults"`      // number of times each fault kind fired
 	FaultRuns     map[string]int `json:"fault_runs"`  // number of runs in which each fault kind fired
@@ -349,7 +349,7 @@ func TestSim(t *testing.T) {
 
 		wo.Runs++
 		wo.Steps += int64(out.Steps)
-		wo.SimNs += out.SimNs
+		wo.SimS += float64(out.SimNs) / 1e9
 		wo.Verdicts[out.Verdict]++
 		wo.SchedKinds[sc.Sched.Kind]++
 		wo.Inconclusive += out.Inconcl
